@@ -7,7 +7,8 @@ import numpy
 
 from common import out, rng, scratch, VERIF
 
-TRUSTED = ['Lean 4.33 kernel (core only)', 'axioms ⊆ {propext, Quot.sound}', 'effect model Det.* with an abstract deterministic PRNG',
+TRUSTED = ['Lean 4.33 kernel (core only)', 'axioms ⊆ {propext, Quot.sound, Classical.choice}', 'effect model Det.* with an abstract deterministic PRNG; memo model Cache.*',
+           'static extractor translator/cachesites.py of memoisation / carried-state sites (audited list in Props/C11.lean)',
            'static site-table extractor translator/rngsites.py (validated on every run against the call sites observed at run time)',
            'partial: PRNG quality ("different seeds give different outputs", Mersenne Twister) and OS-level nondeterminism are outside the model; xpobssim is driven with a synthetic timeline '
            '(replica of its DU loop); xpcalib and xpphotonlist cannot run offline (ephemeris / calibration ROI): covered by the static table only']
@@ -226,7 +227,7 @@ def main(chk):
                 'bitwise; DU alone with a fresh ROI vs after the other DUs with the shared ROI object; DU tables differ; another seed differs; xpstokesrandom/shuffle/smear/xppicorr on a '
                 'synthetic file with three prior random-state histories. non-trivial = at least two perturbations before the re-run')
     chk.assumptions = TRUSTED
-    chk.lean(['IxpeVerif.Props.C11'])
+    chk.lean(['IxpeVerif.Props.C11', 'IxpeVerif.Props.StateAudit'])
     g = rng('C11')
     with scratch() as d:
         histories_obssim(chk, g, d)
